@@ -108,7 +108,11 @@ func runC18Writers(c *core.Ctx) *core.Violation {
 				defer func() { finished++ }()
 				for seq, n := range plans[w] {
 					b := mk(w, seq, n)
-					if got, err := bl.Write(b); err != nil || got != n {
+					got, err := bl.Write(b)
+					for i := range b {
+						b[i] = 0xEE // the buffer is the caller's again
+					}
+					if err != nil || got != n {
 						if viol == nil {
 							viol = core.Violate("write-result", "several-writers", "Write(%d) by writer %d returned (%d, %v)", n, w, got, err)
 						}
@@ -414,6 +418,10 @@ func runC18Single(c *core.Ctx) *core.Violation {
 				wInflight = uint64(k)
 				closedBefore := closed
 				n, err := bl.Write(buf)
+				// the caller owns its buffer again once Write has returned (producers reuse one block buffer)
+				for i := range buf {
+					buf[i] = 0xEE
+				}
 				wInflight = 0
 				if n < 0 || n > k {
 					fail("write-count", "range", "Write(%d) returned %d", k, n)
